@@ -4,8 +4,8 @@ import re
 from . import astq, dtab, common
 
 COMPILER_FUNCS = ("compiler<|generic_compiler::accumulate|fast_perfect_hash<|checked_perfect_hash<|vptr_vector<|vptr_map<|"
-                  "static_list<|class_declaration_aux<|definition_info::~|method<")
-CFG_FUNCS = "build_dispatch_tables|augment_classes|augment_methods|resolve_static_type_ids|hash_initialize|publish_vptrs|hash_type_id|install_gv|static_list<|add_function"
+                  "static_list<|class_declaration_aux<|definition_info::~|>::method|>::~method|add_function<|decode_dispatch_data<")
+CFG_FUNCS = "assign_lattice_slots|build_dispatch_tables|augment_classes|augment_methods|resolve_static_type_ids|hash_initialize|publish_vptrs|hash_type_id|install_gv|static_list<|add_function|class_declaration_aux|definition_info::~|>::~method"
 
 
 def pol_of(f):
@@ -493,8 +493,9 @@ def merge_rules(run, r_bases, r_ids, ast):
                     c0 = astq.strip(cn) if cn else {}
                     if c0.get("k") == "BinaryOperator" and c0.get("op") == "!=" and {"rtc", "rtb"} <= {m.split("::")[-1] for m in mem}:
                         continue        # the improper base (the class itself)
-                    if c0.get("k") == "UnaryOperator" and c0.get("op") == "!" and blk.get("termk") == "IfStmt":
-                        # null test of the looked-up base: its other outcome aborts (C15-update)
+                    if c0.get("k") == "UnaryOperator" and c0.get("op") == "!" and blk.get("termk") == "IfStmt" and astq.strip(c0["c"][0]).get("k") == "DeclRefExpr" \
+                            and astq.strip(c0["c"][0])["ref"]["did"] == astq.strip(tb[0]["c"][1])["ref"]["did"]:
+                        # null test of the looked-up base itself: its other outcome aborts (C15-update)
                         continue
                     bad.append(t)
                 run.instance(r_bases, "%s: every listed base of every registration record is recorded (only the class itself is dropped)" % short(f), (f["file"], tb[0]["l"]), ok=not bad)
@@ -869,3 +870,368 @@ def hash_rules(run, r_accept, r_same, r_publish, r_checked, r_allids, ast):
                 run.instance(r_publish, "%s: hash_initialize, then resize, then the indexed stores" % short(f), (f["file"], f["line"]), ok=oko)
                 if not oko:
                     run.violation(r_publish, "vptr_vector::publish_vptrs|order", "hash parameters are not computed before the vector is sized and filled", (f["file"], f["line"]))
+
+
+
+# ---------------------------------------------------------------------------
+# (8) registration catalogs: static_list case tables, pairing, idempotence
+
+def _canon(n, roles):
+    """text of an expression with start-of-function locals replaced by role names"""
+    n = astq.strip(n)
+    if n is None:
+        return "?"
+    k = n.get("k")
+    if k == "DeclRefExpr":
+        return roles.get(n["ref"]["did"], n["ref"]["name"].split("::")[-1])
+    if k == "CXXThisExpr":
+        return "this"
+    if k == "MemberExpr":
+        c = n.get("c") or []
+        base = _canon(c[0], roles) if c else "this"
+        return base + ("->" if n.get("arrow") else ".") + n["member"]
+    if k == "UnaryOperator":
+        return n.get("op") + _canon(n["c"][0], roles)
+    if k == "CXXNullPtrLiteralExpr" or (k == "IntegerLiteral" and n.get("v") == 0) or k == "GNUNullExpr":
+        return "null"
+    if k == "BinaryOperator":
+        return "(%s %s %s)" % (_canon(n["c"][0], roles), n.get("op"), _canon(n["c"][1], roles))
+    return astq.text(n)
+
+
+def _list_cases(f, decide_text, cases):
+    """per case: set of (lhs, rhs) canonical assignments on the path"""
+    roles = {}
+    inits = {"node.prev_ptr": "PREV", "node.next_ptr": "NEXT", "this->first->prev_ptr": "LAST"}
+    for s0 in (f["body"].get("c") or []):
+        if s0.get("k") == "DeclStmt":
+            for d in s0["decls"]:
+                if d.get("init") is not None:
+                    t = _canon(d["init"], roles)
+                    if t in inits:
+                        roles[d["did"]] = inits[t]
+    # locals declared deeper (push_back's `last`)
+    for n in astq.walk(f["body"]):
+        if n.get("k") == "DeclStmt":
+            for d in n["decls"]:
+                if d.get("init") is not None and d["did"] not in roles:
+                    t = _canon(d["init"], roles)
+                    if t in inits:
+                        roles[d["did"]] = inits[t]
+    out = {}
+    for case in cases:
+        def decide(c, case=case):
+            return decide_text(_canon(c, roles), case)
+
+        def want(n):
+            return n.get("k") == "BinaryOperator" and n.get("op") == "="
+        ps = astq.enum_paths(f["body"], decide, want)
+        if len(ps) != 1:
+            out[case] = None
+            continue
+        out[case] = {( _canon(n["c"][0], roles), _canon(n["c"][1], roles)) for k, n in ps[0]["events"]}
+    return out
+
+
+def list_rules(run, r_link, r_reset, r_pair, r_idem, ast):
+    # ---- remove
+    def dec_remove(t, case):
+        is_last, is_first = case
+        if t in ("(&node == LAST)", "(LAST == &node)"):
+            return is_last
+        if t in ("(&node == this->first)", "(this->first == &node)"):
+            return is_first
+        if "BOOST_ASSERT" in t or "__builtin" in t:
+            return None
+        return None
+    RESET = {("node.prev_ptr", "null"), ("node.next_ptr", "null")}
+    exp_remove = {
+        (True, True): {("this->first", "null")},
+        (True, False): {("this->first->prev_ptr", "PREV"), ("PREV->next_ptr", "null")},
+        (False, True): {("this->first", "NEXT"), ("this->first->prev_ptr", "LAST")},
+        (False, False): {("PREV->next_ptr", "NEXT"), ("NEXT->prev_ptr", "PREV")},
+    }
+    names = {(True, True): "only element", (True, False): "last of several", (False, True): "first of several", (False, False): "interior element"}
+    fs = _fn(ast, r"static_list<.*>::remove$")
+    if not fs:
+        raise common.AnalysisBroken("static_list<T>::remove not instantiated")
+    for f in fs:
+        got = _list_cases(f, dec_remove, list(exp_remove))
+        for case, exp in exp_remove.items():
+            g = got.get(case)
+            if g is None:
+                run.broken.append("%s: paths for case %s not deterministic" % (short(f), names[case]))
+                continue
+            link = {a for a in g if a not in RESET}
+            ok = link == exp
+            run.instance(r_link, "%s removing the %s relinks %s" % (short(f), names[case], sorted(link)), (f["file"], f["line"]), ok=ok)
+            if not ok:
+                run.violation(r_link, "static_list::remove|%s" % names[case], "removing the %s performs %s, the list invariant needs %s" % (names[case], sorted(link), sorted(exp)), (f["file"], f["line"]))
+            okr = RESET <= g
+            run.instance(r_reset, "%s removing the %s resets the node's links (it can be registered again)" % (short(f), names[case]), (f["file"], f["line"]), ok=okr)
+            if not okr:
+                run.violation(r_reset, "static_list::remove|reset|%s" % names[case], "after removing the %s the node's prev/next links are not both reset to null" % names[case], (f["file"], f["line"]))
+    # ---- push_back
+    def dec_push(t, case):
+        if t in ("!this->first", "(this->first == null)"):
+            return case
+        if t in ("this->first", "(this->first != null)"):
+            return not case
+        return None
+    exp_push = {True: {("this->first", "&node"), ("node.prev_ptr", "&node")},
+                False: {("LAST->next_ptr", "&node"), ("node.prev_ptr", "LAST"), ("this->first->prev_ptr", "&node")}}
+    for f in _fn(ast, r"static_list<.*>::push_back$"):
+        got = _list_cases(f, dec_push, [True, False])
+        for case, exp in exp_push.items():
+            g = got.get(case)
+            nm = "empty list" if case else "non-empty list"
+            ok = g is not None and g == exp
+            run.instance(r_link, "%s appending to a%s %s links %s" % (short(f), "n" if case else "", nm, sorted(g or [])), (f["file"], f["line"]), ok=ok)
+            if not ok:
+                run.violation(r_link, "static_list::push_back|%s" % nm, "appending to a %s performs %s, the list invariant needs %s" % (nm, sorted(g or []), sorted(exp)), (f["file"], f["line"]))
+    # ---- clear
+    for f in _fn(ast, r"static_list<.*>::clear$"):
+        loops = [n for n in astq.walk(f["body"]) if n.get("k") == "WhileStmt"]
+        ok = False
+        if len(loops) == 1:
+            asg = [n for n in astq.walk(loops[0]["body"]) if n.get("k") == "BinaryOperator" and n.get("op") == "="]
+            seq = [(_canon(n["c"][0], {}), _canon(n["c"][1], {})) for n in asg]
+            decl = [d for n in astq.walk(loops[0]["body"]) if n.get("k") == "DeclStmt" for d in n["decls"]]
+            cur = decl[0]["name"] if decl else "cur"
+            try:
+                i_adv = [i for i, a in enumerate(seq) if a[1] == "%s->next_ptr" % cur][0]
+                i_null = [i for i, a in enumerate(seq) if a == ("%s->next_ptr" % cur, "null")][0]
+                ok = i_adv < i_null and ("%s->prev_ptr" % cur, "null") in seq
+            except IndexError:
+                ok = False
+            ok = ok and any(_canon(n["c"][0], {}) == "this->first" and _canon(n["c"][1], {}) == "null" for n in astq.walk(f["body"]) if n.get("k") == "BinaryOperator" and n.get("op") == "=")
+        run.instance(r_reset, "%s resets every node's links (after reading the successor) and empties the list" % short(f), (f["file"], f["line"]), ok=ok)
+        if not ok:
+            run.violation(r_reset, "static_list::clear", "clear() does not reset both links of every node after reading its successor and set first to null", (f["file"], f["line"]))
+    # ---- pairing of registration / deregistration
+    regs = {}
+    for f in ast.funcs:
+        if not f.get("body"):
+            continue
+        for n in astq.walk(f["body"]):
+            if n.get("k") == "CXXMemberCallExpr" and re.search(r"static_list<.*>::(push_back|remove)$", n.get("callee") or ""):
+                T = re.search(r"static_list<(.*)>::(push_back|remove)$", n["callee"])
+                lst = [x["member"] if x.get("k") == "MemberExpr" else x["ref"]["name"].split("::")[-1] for x in astq.walk(n["c"][0])
+                       if (x.get("k") == "MemberExpr" and x["member"] not in ("push_back", "remove")) or x.get("k") == "DeclRefExpr"]
+                arg = _canon(n["c"][1], {})
+                regs.setdefault(T.group(1).split("::")[-1], []).append({"op": T.group(2), "fn": f, "list": lst[0] if lst else "?", "arg": arg, "node": n})
+    want_pairs = {"class_info": ("class_declaration_aux", "classes"), "method_info": ("method", "methods"), "definition_info": ("add_function", "specs")}
+    for T, (owner, lname) in want_pairs.items():
+        rs = regs.get(T, [])
+        pushes = [r for r in rs if r["op"] == "push_back" and r["fn"].get("kind") == "CXXConstructor"]
+        removes = [r for r in rs if r["op"] == "remove" and r["fn"].get("kind") == "CXXDestructor"]
+        okp = bool(pushes) and bool(removes) and all(r["list"] == lname for r in pushes + removes) and all(r["arg"] in ("*this", "info") for r in pushes + removes)
+        run.instance(r_pair, "%s: registered in a constructor (%d site(s)) and unregistered from the same catalog `%s` in the destructor (%d site(s))" % (T, len(pushes), lname, len(removes)),
+                     (removes[0]["fn"]["file"], removes[0]["node"]["l"]) if removes else None, ok=okp)
+        if not okp:
+            run.violation(r_pair, "static_list|pair|%s" % T, "%s objects: constructor registrations %s, destructor removals %s - every registration needs its removal from the same catalog" % (
+                T, [(short(r["fn"])[:50], r["list"]) for r in pushes][:3], [(short(r["fn"])[:50], r["list"]) for r in removes][:3]), None)
+        for r in removes:
+            f = r["fn"]
+            if "cfg" not in f:
+                continue
+            bad = []
+            for cls, cn, blk in _cdep_conds(f, r["node"]) or []:
+                if cls in ("loop", "trace"):
+                    continue
+                if T == "definition_info" and cn is not None and _canon(cn, {}) in ("this->method", "(this->method != null)"):
+                    continue
+                bad.append(astq.text(cn) if cn else "?")
+            run.instance(r_pair, "%s: the removal in %s is unconditional" % (T, short(f)[:70]), (f["file"], r["node"]["l"]), ok=not bad)
+            for t in bad:
+                run.violation(r_pair, "static_list|conditional-remove|%s" % T, "the destructor's removal from `%s` is skipped depending on `%s`" % (lname, t), (f["file"], r["node"]["l"]))
+    # ---- idempotent definition registration
+    for f in [f for f in ast.funcs if f.get("body") and re.search(r"add_function<.*>::add_function$", f["name"])]:
+        pb = [n for n in astq.walk(f["body"]) if n.get("k") == "CXXMemberCallExpr" and re.search(r"static_list<.*>::push_back$", n.get("callee") or "")]
+        if len(pb) != 1:
+            run.broken.append("%s: expected one push_back, found %d" % (short(f), len(pb)))
+            continue
+        res = {}
+        for registered in (True, False):
+            def decide(c, registered=registered):
+                t = _canon(c, {})
+                if t in ("info.method", "(info.method != null)"):
+                    return registered
+                if t in ("!info.method", "(info.method == null)"):
+                    return not registered
+                return None
+
+            def want(n):
+                return n is pb[0] or (n.get("k") == "BinaryOperator" and n.get("op") == "=" and _canon(n["c"][0], {}) == "info.method")
+            ps = astq.enum_paths(f["body"], decide, want)
+            res[registered] = [[("push" if n is pb[0] else "set-method") for k, n in p["events"]] for p in ps]
+        ok = all("push" not in p for p in res[True]) and all(p == ["set-method", "push"] for p in res[False]) and res[False]
+        run.instance(r_idem, "%s: a definition already registered is not pushed again; otherwise method is set, then pushed" % short(f)[:80], (f["file"], pb[0]["l"]), ok=bool(ok))
+        if not ok:
+            run.violation(r_idem, "method::add_function|idempotence", "events when already registered: %s, when not: %s" % (res[True], res[False]), (f["file"], pb[0]["l"]))
+
+
+# ---------------------------------------------------------------------------
+# (9) v-table bias and dispatch-data sizing
+
+def _sym_bias(n):
+    k = n.get("k")
+    if k == "MemberExpr":
+        return n.get("member")
+    if k == "CXXOperatorCallExpr" and n.get("oop") == "[]":
+        base = [x["member"] for x in astq.walk(n["c"][1]) if x.get("k") == "MemberExpr"]
+        return "%s[%s]" % (base[0] if base else "?", astq.text(n["c"][2]))
+    if k == "CXXMemberCallExpr" and (n.get("callee") or "").endswith("::size"):
+        mem = [x["member"] for x in astq.walk(n["c"][0]) if x.get("k") == "MemberExpr" and x["member"] != "size"]
+        return "size(%s)" % (mem[0] if mem else "?")
+    if k == "DeclRefExpr":
+        return n["ref"]["name"].split("::")[-1]
+    return None
+
+
+def bias_rules(run, rule, ast):
+    # writer of v-table entries: cls->vtbl[m.slots[dim] - cls->first_slot]
+    for f in by_name(ast, "build_dispatch_tables"):
+        subs = [n for n in astq.walk(f["body"]) if n.get("k") == "CXXOperatorCallExpr" and n.get("oop") == "[]" and any(
+            x.get("k") == "MemberExpr" and x.get("member") == "vtbl" for x in astq.walk(n["c"][1])) and not any(x.get("k") == "MemberExpr" and x.get("member") == "vtbl" for x in astq.walk(n["c"][2]))]
+        if len(subs) != 1:
+            run.broken.append("%s: expected one subscript of a class's vtbl, found %d" % (short(f), len(subs)))
+            continue
+        a = astq.affine(subs[0]["c"][2], {}, _sym_bias)
+        slot = [k for k in (a or {}) if str(k).startswith("slots[")]
+        ok = a is not None and len(slot) == 1 and a == {slot[0]: 1, "first_slot": -1}
+        run.instance(rule, "%s: v-table entry of (method, parameter) written at index slot - first_slot (%s)" % (short(f), astq.aff_show(a)), (f["file"], subs[0]["l"]), ok=ok)
+        if not ok:
+            run.violation(rule, "compiler::build_dispatch_tables|entry-index", "the v-table entry is written at index %s; the installed pointer is biased by first_slot, so it must be slot - first_slot" % astq.aff_show(a), (f["file"], subs[0]["l"]))
+    # installer of the biased pointer
+    for f in by_name(ast, "install_gv"):
+        asg = [n for n in astq.walk(f["body"]) if n.get("k") == "BinaryOperator" and n.get("op") == "=" and astq.strip(n["c"][0]).get("k") == "UnaryOperator" and
+               astq.strip(n["c"][0]).get("op") == "*" and any(x.get("k") == "MemberExpr" and x.get("member") == "static_vptr" for x in astq.walk(n["c"][0]))]
+        forms = [astq.affine(n["c"][1], {}, _sym_bias) for n in asg]
+        main = [a for a in forms if a is not None and "first_slot" in a]
+        ok = len(main) == 1 and main[0] == {"v:gv_iter": 1, "first_slot": -1} and all(a in ({"v:gv_iter": 1}, {"v:gv_iter": 1, "first_slot": -1}) for a in forms)
+        run.instance(rule, "%s: static v-table pointer = table start - first_slot" % short(f), (f["file"], asg[0]["l"] if asg else f["line"]), ok=ok)
+        if not ok:
+            run.violation(rule, "compiler::install_gv|vptr-bias", "the class's static v-table pointer is set to %s (expected the table start minus first_slot)" % [astq.aff_show(a) for a in forms], (f["file"], asg[0]["l"] if asg else f["line"]))
+    # sizing of the v-table in assign_slots (lattice) : used_slots.size() - first_slot
+    for f in by_name(ast, "assign_slots"):
+        rs = [n for n in astq.walk(f["body"]) if n.get("k") == "CXXMemberCallExpr" and (n.get("callee") or "").endswith("::resize") and any(x.get("k") == "MemberExpr" and x.get("member") == "vtbl" for x in astq.walk(n["c"][0]))]
+        ok = len(rs) == 1 and astq.affine(rs[0]["c"][1], {}, _sym_bias) == {"size(used_slots)": 1, "first_slot": -1}
+        run.instance(rule, "%s: lattice v-table sized used_slots.size() - first_slot" % short(f), (f["file"], rs[0]["l"] if rs else f["line"]), ok=ok)
+        if not ok:
+            run.violation(rule, "compiler::assign_slots|vtbl-size", "a lattice class's v-table is sized %s (expected used_slots.size() - first_slot)" % ([astq.aff_show(astq.affine(r["c"][1], {}, _sym_bias)) for r in rs]), (f["file"], rs[0]["l"] if rs else f["line"]))
+    # decoder
+    for f in [f for f in ast.funcs if f.get("body") and "decode_dispatch_data<" in f["name"]]:
+        asg = [n for n in astq.walk(f["body"]) if n.get("k") == "BinaryOperator" and n.get("op") == "=" and astq.strip(n["c"][0]).get("k") == "UnaryOperator" and
+               any(x.get("k") == "MemberExpr" and x.get("member") == "static_vptr" for x in astq.walk(n["c"][0]))]
+        forms = [astq.affine(n["c"][1], {}, _sym_bias) for n in asg]
+        ok = len(forms) == 1 and forms[0] in ({"v:decode_iter": 1, "v:first_slot": -1}, {"v:decode_iter": 1, "first_slot": -1})
+        run.instance(rule, "%s: decoded static v-table pointer = table start - first slot" % short(f)[:70], (f["file"], asg[0]["l"] if asg else f["line"]), ok=ok)
+        if not ok:
+            run.violation(rule, "decode_dispatch_data|vptr-bias", "the decoder sets the static v-table pointer to %s" % [astq.aff_show(a) for a in forms], (f["file"], asg[0]["l"] if asg else f["line"]))
+
+
+def size_rules(run, rule, ast):
+    for f in by_name(ast, "install_gv"):
+        decls = {d["did"]: d for n in astq.walk(f["body"]) if n.get("k") == "DeclStmt" for d in n["decls"]}
+        rs = [n for n in astq.walk(f["body"]) if n.get("k") == "CXXMemberCallExpr" and (n.get("callee") or "").endswith("::resize") and any((astq.refname(x) or "").endswith("::dispatch_data") for x in astq.walk(n["c"][0]))]
+        if len(rs) != 1:
+            run.broken.append("%s: dispatch_data.resize not found" % short(f))
+            continue
+        sv = astq.strip(rs[0]["c"][1])
+        terms = []
+        if sv.get("k") == "DeclRefExpr":
+            did = sv["ref"]["did"]
+            # contributions: initialiser + later assignments, each a std::accumulate with a lambda `sum + X.size()`
+            srcs = [decls[did].get("init")] + [n["c"][1] for n in astq.walk(f["body"]) if n.get("k") == "BinaryOperator" and n.get("op") == "=" and astq.strip(n["c"][0]).get("k") == "DeclRefExpr" and astq.strip(n["c"][0])["ref"]["did"] == did]
+            for s0 in srcs:
+                for c in astq.walk(s0):
+                    if c.get("k") == "CallExpr" and (c.get("callee") or "").startswith("std::accumulate<"):
+                        a = c["c"][1:]
+                        rng = [x["member"] for x in astq.walk(a[0]) if x.get("k") == "MemberExpr" and x["member"] not in ("begin", "end")]
+                        lam = [x for x in astq.walk(a[3]) if x.get("k") == "LambdaExpr"]
+                        bodies = lam[0]["lambda"].get("specializations") or [lam[0]["lambda"]["body"]]
+                        for r in astq.walk(bodies[0]):
+                            if r.get("k") == "ReturnStmt":
+                                e = astq.affine(r["c"][0], {}, _sym_bias)
+                                if e is not None and e.get("v:sum") == 1:
+                                    terms.append((rng[0] if rng else "?", {k: v for k, v in e.items() if k != "v:sum"}))
+        exp = [("methods", {"size(dispatch_table)": 1}), ("classes", {"size(vtbl)": 1})]
+        ok = sorted(terms, key=str) == sorted(exp, key=str)
+        run.instance(rule, "%s: dispatch_data sized sum(dispatch_table.size()) + sum(vtbl.size())" % short(f), (f["file"], rs[0]["l"]), ok=ok, detail={"terms": [(a, astq.aff_show(b)) for a, b in terms]})
+        if not ok:
+            run.violation(rule, "compiler::install_gv|dispatch-data-size", "dispatch_data is resized to the sum of %s; the writes need one cell per dispatch-table entry and one per v-table entry" % [(a, astq.aff_show(b)) for a, b in terms], (f["file"], rs[0]["l"]))
+        # writes: one cell per v-table entry on every path of the entry loop
+        el = [n for n in astq.walk(f["body"]) if n.get("k") == "CXXForRangeStmt" and any(x.get("k") == "MemberExpr" and x.get("member") == "vtbl" for x in astq.walk(astq.strip(n["range"])))]
+        if len(el) != 1:
+            run.broken.append("%s: loop over a class's v-table entries not found" % short(f))
+            continue
+
+        def is_cell_write(n):
+            if n.get("k") != "BinaryOperator" or n.get("op") != "=":
+                return False
+            l = astq.strip(n["c"][0])
+            return l.get("k") == "UnaryOperator" and l.get("op") == "*" and any(x.get("k") == "UnaryOperator" and x.get("op") == "++" for x in astq.walk(l)) and any(
+                x.get("k") == "DeclRefExpr" and x["ref"]["name"].endswith("gv_iter") for x in astq.walk(l))
+        ps = astq.enum_paths(el[0]["body"], lambda c: None, is_cell_write)
+        counts = sorted({len(p["events"]) for p in ps})
+        ok = counts == [1]
+        run.instance(rule, "%s: every path through the entry loop writes exactly one cell and advances the cursor by one" % short(f), (f["file"], el[0]["l"]), ok=ok)
+        if not ok:
+            run.violation(rule, "compiler::install_gv|cells-per-entry", "paths through the v-table entry loop write %s cells (declared: 1 per entry)" % counts, (f["file"], el[0]["l"]))
+
+
+# ---------------------------------------------------------------------------
+# (10) lattice slot allocation: the reservations that keep slots collision-free are unconditional
+
+def reserve_rules(run, rule, ast):
+    fs = by_name(ast, "assign_lattice_slots")
+    if not fs:
+        raise common.AnalysisBroken("assign_lattice_slots not instantiated")
+    for f in fs:
+        byid, parent = astq.index_nodes(f)
+        cls_param = f["params"][0]["did"]
+        calls = [n for n in astq.walk(f["body"]) if n.get("k") == "CallExpr" and re.search(r"detail::(merge_into|set_bit)$", n.get("callee") or "")]
+        # the reservations proper: merges into reserved_slots / used_slots of other classes, and the two set_bit on the chosen slot
+        roles = []
+        for c in calls:
+            tgt = c["c"][2] if c["callee"].endswith("merge_into") else c["c"][1]
+            mem = [x["member"] for x in astq.walk(tgt) if x.get("k") == "MemberExpr"]
+            owner = "self" if any(x.get("k") == "DeclRefExpr" and x["ref"]["did"] == cls_param for x in astq.walk(tgt)) else "other"
+            if c["callee"].endswith("set_bit"):
+                roles.append(("mark chosen slot in own %s" % (mem[0] if mem else "?"), c))
+            elif owner == "other" and mem and mem[0] == "reserved_slots":
+                roles.append(("reserve in a base", c))
+            elif owner == "other" and mem and mem[0] == "used_slots":
+                roles.append(("mark used in a covariant class", c))
+        if len([r for r in roles if r[0] == "reserve in a base"]) < 2 or len(roles) < 5:
+            run.broken.append("%s: reservation calls not recognised (%s)" % (short(f), [r[0] for r in roles]))
+            continue
+        cfg = astq.Cfg(f)
+        for what, c in roles:
+            b = cfg.block_of.get(c["id"])
+            bad = []
+            for x in _transitive_cdeps(cfg, b):
+                blk = cfg.blocks[x]
+                cn = byid.get(blk.get("cond"))
+                cls = _classify_cond(cn, blk)
+                if cls in ("loop", "trace") or cn is None:
+                    continue
+                c0 = astq.strip(cn)
+                mems = {y.get("member") for y in astq.walk(cn) if y.get("k") == "MemberExpr"}
+                if {"mark", "class_mark"} <= mems and any(y.get("k") == "DeclRefExpr" and y["ref"]["did"] == cls_param for y in astq.walk(c0)) and not _enclosing(parent, cn, ("CXXForRangeStmt", "ForStmt")):
+                    continue                                   # visited check of the class itself at function entry
+                if c0.get("k") == "UnaryOperator" and c0.get("op") == "!" and "used_by_vp" in mems and "empty" in mems and len(mems) == 2:
+                    continue                                   # class has virtual parameters
+                if c0.get("k") == "BinaryOperator" and c0.get("op") == "!=" and any(y.get("k") == "DeclRefExpr" and y["ref"]["did"] == cls_param for y in astq.walk(c0)):
+                    loops = _enclosing(parent, c, ("CXXForRangeStmt",))
+                    if any(any(y.get("k") == "DeclRefExpr" and y["ref"]["did"] == lp["var"]["did"] for y in astq.walk(c0)) for lp in loops):
+                        continue                               # the class itself among its covariant classes
+                if _enclosing(parent, cn, ("ForStmt",)) and any(y.get("k") == "DeclRefExpr" and "unavailable" in y["ref"]["name"] for y in astq.walk(cn)):
+                    continue                                   # search for the first free slot
+                if c0.get("k") == "CXXOperatorCallExpr" and c0.get("oop") == "[]" or (c0.get("k") == "UnaryOperator" and any(y.get("k") == "CXXOperatorCallExpr" and y.get("oop") == "[]" for y in astq.walk(c0)) and _enclosing(parent, cn, ("ForStmt",))):
+                    continue
+                bad.append(astq.text(cn))
+            run.instance(rule, "%s: '%s' is not skipped by any extra condition" % (short(f), what), (f["file"], c["l"]), ok=not bad)
+            for t in bad:
+                run.violation(rule, "compiler::assign_lattice_slots|conditional-reservation", "the step '%s' is skipped depending on `%s`: a slot taken in one class is no longer reserved / propagated in every base and covariant class" % (what, t), (f["file"], c["l"]))
